@@ -286,6 +286,14 @@ def run(tier, seed, replay=None):
             pattern and the command name the same file(s) (generator's construction, validated with os.path.realpath), so
             analyze() must answer the rule's decision (with its message); different files: the rule is inert."""
             cfg_text, subject, expected = spell.build(sc, case)
+            want = case["dec"]
+            if case.get("first"):
+                # an earlier rule of the same kind, in another spelling (of the same or of another file): the LAST rule that
+                # names the command's files decides
+                t1, _, e1 = spell.build(sc, dict(case, p=case["first"]["p"], dec=case["first"]["dec"], same=case["first"]["same"], msg=False))
+                cfg_text = t1 + "\n" + cfg_text
+                if not expected and e1:
+                    expected, want = True, case["first"]["dec"]
             cfg = C.parse_config(cfg_text)
             form = case["form"]
             if case["rule"] == "redirect":
@@ -297,9 +305,9 @@ def run(tier, seed, replay=None):
             out.count("c07.spell.form", form)
             bad = None
             if expected:
-                if dec.action != case["dec"]:
-                    bad = f"the rule names the same file(s) as the command and says {case['dec']}, but analyze() says {dec.action}"
-                elif case["dec"] == "deny" and case.get("msg") and ("M-" + case["dec"]) not in dec.reason:
+                if dec.action != want:
+                    bad = f"the {'last ' if case.get('first') else ''}rule that names the same file(s) as the command says {want}, but analyze() says {dec.action}"
+                elif want == "deny" and case.get("msg") and want == case["dec"] and ("M-" + case["dec"]) not in dec.reason:
                     bad = f"deny message 'M-deny' not in reason {dec.reason!r}"
             else:
                 v0 = analyze(text, C.Config()).action
@@ -489,7 +497,7 @@ def run(tier, seed, replay=None):
         U = lambda x: spell.unsub(sc, x)
         files = spell.scratch_files(sc)
         fams = {n: [x for x in spell.family(pth, sc.cwd, sc.home, links, 1 if quick else 2) if spell.pathword(x)] for n, pth, _ in files}
-        TPLS = ("arg1", "name", "arg2", "mid")
+        TPLS = spell.POSITIONS
 
         def emit(i, rule, tpl, pspell, qspell, same=True):
             nonlocal n_spell
@@ -497,6 +505,8 @@ def run(tier, seed, replay=None):
             case = {"rule": rule, "dec": rc.VERDICTS[i % 3], "exact": mode == 1, "star": mode == 2, "msg": (i // 3) % 2 == 0,
                     "tpl": tpl if rule != "alias" else "name", "extra": 1 if mode == 3 else 0,
                     "p": [U(pspell)], "q": [U(qspell)], "same": same, "tail": None, "form": forms[(i * 3 + i // len(forms)) % len(forms)]}
+            if i % 7 == 3 and rule == "command":
+                case["sep"] = ("  ", "\t", " \t ")[(i // 7) % 3]
             spell_case(case)
             out.case(case, nontrivial=True)
             n_spell += 1
@@ -510,7 +520,7 @@ def run(tier, seed, replay=None):
             for pspell in plain:
                 for qspell in plain:
                     for tpl in TPLS:
-                        for _d in range(3):
+                        for _d in range(3 if tpl in ("arg1", "name", "arg2", "mid") else 1):
                             emit(i, "command", tpl, pspell, qspell)
                             i += 1
             # every member of the family in the pattern: every position, alias, redirect rule; partner, form, decision, anchor rotated
@@ -520,15 +530,33 @@ def run(tier, seed, replay=None):
                     i += 1
                 emit(i, "alias", "name", pspell, fam[(k * 5 + 2) % len(fam)])
                 emit(i + 1, "redirect", None, pspell, fam[(k * 3 + 4) % len(fam)])
-                emit(i + 2, "command", TPLS[k % 4], pspell, pspell)        # the pattern is the command's own text
+                emit(i + 2, "command", TPLS[k % len(TPLS)], pspell, pspell)        # the pattern is the command's own text
                 i += 3
             # every member of the family in the command
             for k, qspell in enumerate(fam):
-                emit(i, "command", TPLS[k % 4], fam[(k * 11 + 5) % len(fam)], qspell)
+                emit(i, "command", TPLS[k % len(TPLS)], fam[(k * 11 + 5) % len(fam)], qspell)
                 emit(i + 1, ("alias", "redirect")[k % 2], "name", fam[(k * 13 + 6) % len(fam)], qspell)
                 i += 2
                 if k % 4 == 0:   # control: the command names another file - the rule must be inert
-                    emit(i, ("command", "alias", "redirect")[k % 3], TPLS[k % 4], fam[k], other[k % len(other)], same=False)
+                    emit(i, ("command", "alias", "redirect")[k % 3], TPLS[k % len(TPLS)], fam[k], other[k % len(other)], same=False)
+                    i += 1
+            # two rules: the same file twice in different spellings (the later one decides), and a rule for another file
+            # before / after the one that fires (inert)
+            for k, pspell in enumerate(fam):
+                q_ = fam[(k * 7 + 3) % len(fam)]
+                p1 = fam[(k * 5 + 1) % len(fam)]
+                o1 = other[(k * 3) % len(other)]
+                rule = ("command", "redirect", "command")[k % 3]
+                for first, same_main, pmain in (({"p": [U(p1)], "dec": rc.VERDICTS[(k + 1) % 3], "same": True}, True, pspell),
+                                                ({"p": [U(o1)], "dec": rc.VERDICTS[(k + 2) % 3], "same": False}, True, pspell),
+                                                ({"p": [U(pspell)], "dec": rc.VERDICTS[(k + 1) % 3], "same": True}, False, o1)):
+                    mode = (i // 5) % 4
+                    case = {"rule": rule, "dec": rc.VERDICTS[k % 3], "exact": mode == 1, "star": mode == 2, "msg": True, "tpl": TPLS[(k // 3) % len(TPLS)],
+                            "extra": 1 if mode == 3 else 0, "p": [U(pmain)], "q": [U(q_)], "same": same_main, "tail": None,
+                            "form": forms[(i * 3) % len(forms)], "first": first}
+                    spell_case(case)
+                    out.case(case, nontrivial=True)
+                    n_spell += 1
                     i += 1
         out.extra["spelling_cases"] = n_spell
 
